@@ -147,6 +147,12 @@ pub open spec fn zk_ties(zk: CL03ZKPoK, idx: Seq<usize>) -> bool {
     &&& zk.range_proof_r.E@ == zk.proof_r.commitment.value@
 }
 
+/// F11b: the per-attribute commitments (and the commitment to r) are commitments to the SAME m_i (and r) that C opens to.
+/// Nothing in the proof format lets a verifier establish this (the sub-proofs use independent blindings), so no code can
+/// discharge it: it is the contract-level statement of the protocol gap.
+pub uninterp spec fn zk_linked(zk: CL03ZKPoK, c: CL03Commitment, pk: CL03PublicKey, bases: Seq<Integer>, idx: Seq<usize>) -> bool;
+pub uninterp spec fn spok_linked(p: CL03PoKSignature, cpk: CL03CommitmentPublicKey, idx: Seq<usize>) -> bool;
+
 pub open spec fn eff_idx0(idx: Option<&[usize]>) -> Seq<usize> {
     match idx { Some(s) => s@, None => seq![0usize] }
 }
